@@ -213,7 +213,8 @@ def check_point(case):
             cand = [float(v) * sc for v in case["x"]]
             if all(bx[k][0] <= c <= bx[k][1] for k, c in enumerate(cand)) and cand != [float(v) for v in case["x"]]:
                 others.append(cand)
-        others.reverse()  # another dimension first: a value cached at the first call must not leak
+        # points of another dimension first (a value cached at the very first call must not leak), then the rest
+        others.sort(key=lambda o: (len(o) == len(bx),))
         for o in others:
             obj2.f(o)
         f4 = obj2.f(_typed(case["x"], case["xtype"]))
